@@ -40,14 +40,14 @@ def model_check(work, consts, tag):
 
 
 QUICK = dict(Classes="ClassesCore", RowCounts="RowsQuick", NullPats="PatsQuick", ValPats="ValsQuick", Modes="ModesAll",
-             RppWants="RppQuick", Versions="V12", RgOffsets="RgoQuick", StatsModes="StatsQuick", Codecs="CodecNone")
+             RppWants="RppQuick", Versions="V12", RgOffsets="RgoQuick", StatsModes="StatsQuick", Codecs="CodecNone", WriteOpts="OptDefault")
 BIG = dict(Classes="ClassesBig", RowCounts="RowsBig", NullPats="PatsBig", ValPats="ValsBig", Modes="ModesBig",
-           RppWants="RppBig", Versions="V12", RgOffsets="Rgo0", StatsModes="StatsTrue", Codecs="CodecNone")
+           RppWants="RppBig", Versions="V12", RgOffsets="Rgo0", StatsModes="StatsTrue", Codecs="CodecNone", WriteOpts="OptDefault")
 TYPES = dict(Classes="ClassesAll", RowCounts="RowsTypes", NullPats="PatsTypes", ValPats="ValsBig", Modes="ModesBig",
-             RppWants="RppTypes", Versions="V12", RgOffsets="Rgo0", StatsModes="StatsTrue", Codecs="CodecsAll")
+             RppWants="RppTypes", Versions="V12", RgOffsets="Rgo0", StatsModes="StatsTrue", Codecs="CodecsAll", WriteOpts="OptsAll")
 HUGE = dict(BIG, RowCounts="RowsHuge", RppWants="RppHuge")
 THOROUGH = dict(Classes="ClassesAll", RowCounts="RowsThorough", NullPats="PatsAll", ValPats="ValsQuick", Modes="ModesAll",
-                RppWants="RppQuick", Versions="V12", RgOffsets="RgoThorough", StatsModes="StatsAll", Codecs="CodecsSome")
+                RppWants="RppQuick", Versions="V12", RgOffsets="RgoThorough", StatsModes="StatsAll", Codecs="CodecsSome", WriteOpts="OptDefault")
 
 
 def case_sig(case):
@@ -87,8 +87,14 @@ def replay_chunk(args):
             try:
                 # the page budget applies to column x; z (8 bytes/row, REQUIRED or OPTIONAL) gets what it gets
                 W.MAX_PAGE_SIZE, W.DATAPAGE_VERSION = case["pagebytes"], case["v"]
+                okw = {}
+                if case.get("opt") == "int96":
+                    okw["times"] = "int96"
+                elif case.get("opt") == "explicit":
+                    okw["object_encoding"] = {"x": "bytes" if cls == "obj_bytes" else "utf8", "z": "infer"}
                 fp.write(path, df, has_nulls=has_nulls, row_group_offsets=(case["rgo"] or None), stats=stats,
-                         write_index=False, compression=(None if case.get("codec", "none") == "none" else case["codec"]))
+                         write_index=False, compression=(None if case.get("codec", "none") == "none" else case["codec"]),
+                         **okw)
             except BaseException as e:  # noqa
                 raised = e
             finally:
@@ -122,7 +128,10 @@ def replay_chunk(args):
                     if bad:
                         kind = "missingness" if any((cells[i] < 0) for i in bad) else "value"
                         out["viol"].append(("C01", dict(sig, what="cell %s changed on read-back" % kind), ci))
-                    elif not CZ.dtype_ok(cls, gx.dtype) and len(cells):
+                    elif not CZ.dtype_ok(cls, gx.dtype) and len(cells) and not (
+                            case.get("opt") == "int96" and str(gx.dtype).startswith("datetime64[")):
+                        # (INT96 has one resolution: a timestamp column stored that way comes back as datetime64[ns],
+                        #  the same dtype KIND, which is what the property asks for)
                         out["viol"].append(("C01", dict(sig, what="dtype changed on read-back", got=str(gx.dtype)), ci))
                     elif cls.startswith("cat_") and len(cells):
                         want_cats = list(ser.cat.categories)
@@ -283,6 +292,8 @@ def _is_sentinel(leaf, pv):
         return pv != pv
     if leaf.physical_type == "INT64":
         return pv == -2 ** 63            # NaT
+    if leaf.physical_type == "INT96":    # NaT stored in band: the (nanoseconds, Julian day) pair of -2**63 ns
+        return CZ.logical_from_physical(leaf, pv) == ("ns", -2 ** 63)
     return False
 
 
